@@ -721,7 +721,14 @@ class NumericWaveform(ABC, Generic[_TRaw, _TScaled]):
             )
 
         start_index = arg_to_uint("start index", start_index, 0)
+        if start_index > len(array):
+            raise create_start_index_too_large_error(start_index, "input array length", len(array))
+
         sample_count = arg_to_uint("sample count", sample_count, len(array) - start_index)
+        if start_index + sample_count > len(array):
+            raise create_start_index_or_sample_count_too_large_error(
+                start_index, sample_count, "input array length", len(array)
+            )
 
         if copy:
             if sample_count > len(self._data):
